@@ -101,3 +101,28 @@ def standin_C20_cache(seed, args):
 def rerun_C20(inp):
     d = cache_case(inp['keys'], [tuple(x) for x in inp['inserts']], inp['lookup'])
     return d
+
+
+# ------------------------------------------------------------------------------------------------ reference-semantics oracle
+def standin_oracle(seed, args):
+    """random small queries (generator parameters in args['family']) evaluated by the real engine and by brute force
+    over the Cartesian product of the domains (ordinary Python semantics); deterministic in the seed"""
+    import probes
+    fam = dict(args['family'])
+    n = args.get('cases', 150)
+    budget = args.get('budget_s', 60)
+    t0 = time.time()
+    failures = []
+    tried = 0
+    for s in range(seed * 100000, seed * 100000 + n):
+        if time.time() - t0 > budget:
+            break
+        p = dict(fam, seed=s)
+        tried += 1
+        d = probes.run_case(p)
+        if d is not None:
+            if len(failures) < 3:
+                failures.append({'input': p, 'detail': d, 'signature': {'family': args.get('label', '')}})
+    return {'evaluations': tried, 'exhaustive': False,
+            'scope': f"{tried} random cases of family {args.get('label', fam)} (domains of {fam.get('n', 3)} objects, depth <= {fam.get('depth', 2)})",
+            'failures': failures, 'n_failures': len(failures)}
